@@ -2,6 +2,7 @@ import NcVerif.Driver.Proto
 import NcVerif.Driver.XmlDocD
 import NcVerif.Model.Builders
 import NcVerif.Model.Caps
+import NcVerif.Model.Retrieve
 namespace NcVerif.Driver
 open NcVerif NcVerif.Proto NcVerif.XmlDoc NcVerif.Builders
 
@@ -14,6 +15,43 @@ def outRes (mid : Str) (r : Res) : String :=
   | .error (.missingCapability c) => "err missing " ++ strTok c
   | .error .valueError => "err value"
   | .error .xmlError => "err xml"
+  | .error .withDefaultsError => "err withdefaults"
+
+/-- Filter tokens (last on the line): `-` | `xpath <sel>` | `other <type>` | `subtree <tree…>` | `subtrees <n> <tree…>…` | `element <tree…>` -/
+def parseFilter (toks : List String) : Option (Option Retrieve.Filter) :=
+  match toks with
+  | ["-"] => some none
+  | ["xpath", sel] => (tokStr sel).map fun v => some (.xpath v)
+  | ["other", ty] => (tokStr ty).map fun v => some (.other v)
+  | "subtree" :: rest => match xdNode 100000 rest with | some (c, []) => some (some (.subtree c)) | _ => none
+  | "element" :: rest => match xdNode 100000 rest with | some (c, []) => some (some (.element c)) | _ => none
+  | "subtrees" :: n :: rest =>
+    match n.toNat? with
+    | some k => match xdNodes 100000 k rest with | some (cs, []) => some (some (.subtrees cs)) | _ => none
+    | none => none
+  | _ => none
+
+/-- `bd get|getcf|disp|sub <caps> <mid> <scalar args…> <filter tokens…>` (Model/Retrieve) -/
+def retrieveCmd (op : String) (uris : List Str) (mid : Str) (rest : List String) : Option String :=
+  let caps := Caps.mk uris
+  match op, rest with
+  | "get", wd :: ft =>
+    match optStr wd, parseFilter ft with
+    | some wd, some f => some (outRes mid (Retrieve.get caps f wd))
+    | _, _ => some "bad-args"
+  | "getcf", src :: wd :: ft =>
+    match tokStr src, optStr wd, parseFilter ft with
+    | some src, some wd, some f => some (outRes mid (Retrieve.getConfig caps src f wd))
+    | _, _, _ => some "bad-args"
+  | "disp", cmd :: src :: ft =>
+    match tokStr cmd, optStr src, parseFilter ft with
+    | some cmd, some src, some f => some (outRes mid (Retrieve.dispatch caps cmd src f))
+    | _, _, _ => some "bad-args"
+  | "sub", a :: b :: c :: ft =>
+    match optStr a, optStr b, optStr c, parseFilter ft with
+    | some a, some b, some c, some f => some (outRes mid (Retrieve.createSubscription caps f a b c))
+    | _, _, _, _ => some "bad-args"
+  | _, _ => none
 
 /-- `bd <op> <server capability URIs> <message-id> <args…>` → `ok <serialised <rpc>> <parameter names>` | `err operation|missing <cap>|value` -/
 def buildersCmd (args : List String) : String :=
@@ -22,6 +60,9 @@ def buildersCmd (args : List String) : String :=
     match tokStrList capsT, tokStr midT with
     | some uris, some mid =>
       let has : Str → Bool := Caps.contains (Caps.mk uris)
+      match retrieveCmd op uris mid rest with
+      | some out => out
+      | none =>
       match op, rest with
       | "edit", target :: dop :: top :: eop :: kind :: cfg =>
         match tokStr target, optStr dop, optStr top, optStr eop with
